@@ -1467,7 +1467,8 @@ class Interp:
                 if f:
                     return ('func', f.qualname)
                 v = self.class_attr_term(c, attr)
-                if v is not None and _is_closed(v):
+                if v is not None and _is_closed(v) and \
+                        not self._has_instance_store(c, attr):
                     return v
             return ('attr', b, attr)
         c = self.type_of(b, st)
@@ -2178,3 +2179,77 @@ def _is_closed(t):
     """No free/param/fresh parts: a module-level constant structure."""
     return not contains(t, lambda x: x[0] in ('param', 'fresh', 'free',
                                                'loopvar', 'loopout', 'elem'))
+
+
+# ---------------------------------------------------------------------------
+# substitution + re-folding of terms (used to evaluate small extracted
+# expressions over a finite set of values, e.g. flag bits or padding residues)
+
+def subst_fold(t, mapping):
+    """Replace sub-terms per mapping (term -> term) and constant-fold the
+    result bottom-up."""
+    it = Interp.__new__(Interp)
+
+    def go(x):
+        if x in mapping:
+            return mapping[x]
+        if not isinstance(x, tuple) or not x or not isinstance(x[0], str):
+            return x
+        k = x[0]
+        if k == 'binop':
+            return Interp.binop(it, x[1], go(x[2]), go(x[3]))
+        if k == 'cmp':
+            return Interp.compare(it, x[1], go(x[2]), go(x[3]))
+        if k == 'unop':
+            v = go(x[2])
+            if x[1] == 'not':
+                tv = truth(v)
+                return C(not tv) if tv is not None else ('unop', 'not', v)
+            ok, pv = try_py(v)
+            if ok:
+                try:
+                    return C({'-': lambda z: -z, '+': lambda z: +z,
+                              '~': lambda z: ~z}[x[1]](pv))
+                except Exception:
+                    pass
+            return ('unop', x[1], v)
+        if k == 'boolop':
+            vals = [go(v) for v in x[2]]
+            is_and = x[1] == 'and'
+            acc = []
+            for i, v in enumerate(vals):
+                if i == len(vals) - 1:
+                    acc.append(v)
+                    break
+                tv = truth(v)
+                if tv is None:
+                    acc.append(v)
+                elif tv == is_and:
+                    continue
+                else:
+                    acc.append(v)
+                    break
+            return acc[0] if len(acc) == 1 else ('boolop', x[1], tuple(acc))
+        if k == 'ifexp':
+            c = go(x[1])
+            tv = truth(c)
+            if tv is True:
+                return go(x[2])
+            if tv is False:
+                return go(x[3])
+            return ('ifexp', c, go(x[2]), go(x[3]))
+        if k == 'sub':
+            return Interp.subscript(it, go(x[1]), go(x[2]))
+        if k == 'call' and kind(x[2]) == 'builtin' and \
+                x[2][1] in _PURE_BUILTINS and not x[4]:
+            args = tuple(go(a) for a in x[3])
+            oks = [try_py(a) for a in args]
+            if all(o for o, _ in oks):
+                try:
+                    return from_py(_PURE_BUILTINS[x[2][1]](
+                        *[v for _, v in oks]))
+                except Exception:
+                    pass
+            return ('call', x[1], x[2], args, x[4], x[5])
+        return tuple(go(y) if isinstance(y, tuple) else y for y in x)
+    return go(t)
